@@ -53,6 +53,7 @@ STUBBED = ["socket/select/time/pinger/random (simkit)", "links and hosts "
            "(harness)", "DeferredSender (no back-pressure)"]
 EXPECT_PROBES = ["has_cycle", "one_way_link", "parallel_links", "link_down",
                  "link_up", "control_reset", "silent_switch", "converged",
+                 "reset_with_probe_in_flight",
                  "flood_sim", "big_dpid", "big_port", "port_deleted",
                  "port_readded"]
 
@@ -133,6 +134,10 @@ def gen_plan(seed, tier):
         steps.append({"op": "port", "sw": sw_, "i": i_, "del": True})
     elif k == "reset":
       steps.append({"op": "reset", "sw": r.pick(dpids)})
+      if r.chance(0.4):
+        # the reset lands while one of that switch's own probes is on the
+        # wire (armed here, fired by its next probe transmission)
+        steps[-1]["mid_probe"] = True
     elif k == "silent":
       steps.append({"op": "silent", "sw": r.pick(dpids), "on": r.chance(0.7)})
     elif k == "loss":
@@ -277,6 +282,10 @@ def _drive(sim, plan, known, hit):
         raise_later.append(("link-event/added-twice", "%r announced added "
                             "twice in a row" % (key,)))
       state[key] = True
+      if l.dpid1 not in set(net.nexus.connections.dpids):
+        raise_later.append(("link-event/from-disconnected-switch",
+                            "discovery announced %r while switch %#x is not "
+                            "connected" % (key, l.dpid1)))
       if phys.get(src) != (l.dpid2, l.port2):
         raise_later.append(("link-event/not-physical", "discovery announced "
                             "%r which is not a physical link" % (key,)))
@@ -367,6 +376,15 @@ def _drive(sim, plan, known, hit):
           present[(d, pno)] = True
           sim.probes["port_readded"] += 1
         recompute()
+    elif op == "reset" and st.get("mid_probe"):
+      def fire(dpid, port, raw, target=st["sw"]):
+        if dpid != target or raw[12:14] != b"\x88\xcc":
+          return False
+        if net.reset_control(target):
+          sim.probes["control_reset"] += 1
+          sim.probes["reset_with_probe_in_flight"] += 1
+        return True           # one shot
+      net.on_transmit = fire
     elif op == "reset":
       if net.reset_control(st["sw"]):
         sim.probes["control_reset"] += 1
